@@ -75,6 +75,7 @@ type scen struct {
 	Mod     string         `json:"mod,omitempty"`    // kind "genesis": the module whose state goes through ExportGenesis -> InitGenesis
 	Env     int            `json:"env,omitempty"`    // kind "hist": 1 = skyway environment, 2 = tokenfactory / paloma environment
 	Hist    []scen         `json:"hist,omitempty"`   // kind "hist": an object history, every step delivered like a single case
+	Depth   int            `json:"depth,omitempty"`  // kind "nest": levels of authz.MsgExec around the message Tx[0]
 }
 
 type built struct {
@@ -265,15 +266,24 @@ func (e *env) build(t *testing.T, s scen) (*built, error) {
 			m := &consensustypes.MsgAddMessagesSignatures{Metadata: md, SignedMessages: []*consensustypes.ConsensusMessageSignature{
 				{Id: s.TxID, QueueTypeName: e.queue, Signature: sig, SignedByAddress: addrS}}}
 			b.msg = m
+			// valid apart from identity, read from the real state before the delivery: the claimed address is
+			// registered by the CREATOR's validator now, the signature verifies against the key registered
+			// with it, and neither that key nor the creator has signed the message yet
 			signed := false
+			var regKey []byte
+			if isVal(s.Creator) {
+				if pk, err := e.f3.ValsetKeeper.GetSigningKey(e.ctx, sdk.ValAddress(e.actors[s.Creator]), "evm", chain, addrS); err == nil {
+					regKey = pk
+				}
+			}
 			if exists {
 				for _, sd := range rec.GetSignData() {
-					if isVal(s.Creator) && sd.ValAddress.Equals(sdk.ValAddress(e.actors[s.Creator])) {
+					if (isVal(s.Creator) && sd.ValAddress.Equals(sdk.ValAddress(e.actors[s.Creator]))) || (regKey != nil && bytes.Equal(sd.PublicKey, regKey)) {
 						signed = true
 					}
 				}
 			}
-			b.biz = isVal(s.Creator) && exists && ca == s.Creator && s.SigBy == s.Creator && !signed
+			b.biz = isVal(s.Creator) && exists && regKey != nil && isVal(s.SigBy) && bytes.Equal(regKey, keeper.EthAddrs[s.SigBy].Bytes()) && !signed
 			b.run = func(ctx sdk.Context) error { _, err := e.cons.AddMessagesSignatures(ctx, m); return err }
 		case "consensus.MsgAddMessageGasEstimates":
 			ca := nm("EstimatedByAddress")
@@ -318,7 +328,7 @@ func (e *env) build(t *testing.T, s scen) (*built, error) {
 		// the creator registers, as its own account on the chain, the address that validator
 		// Named["ChainInfos.Address"] has registered (itself: re-registration; -1: a fresh one)
 		ca := nm("ChainInfos.Address")
-		addrS, pub := "0x9999999999999999999999999999999999999999", []byte("fresh-pubkey-0000000")
+		addrS, pub := fmt.Sprintf("0x99999999999999999999999999999999999999%02x", s.Creator+1), []byte(fmt.Sprintf("fresh-pubkey-%07d", s.Creator+1))
 		if isVal(ca) {
 			addrS, pub = keeper.EthAddrs[ca].String(), keeper.EthAddrs[ca].Bytes()
 			if s.Erc == "lower" {
@@ -335,7 +345,12 @@ func (e *env) build(t *testing.T, s scen) (*built, error) {
 		collide := false
 		var vk interface {
 			GetAllChainInfos(ctx context.Context) ([]*vtypes.ValidatorExternalAccounts, error)
-		} = e.in.ValsetKeeper
+		}
+		if e.three {
+			vk = e.f3.ValsetKeeper
+		} else {
+			vk = e.in.ValsetKeeper
+		}
 		if all, err := vk.GetAllChainInfos(e.ctx); err == nil {
 			for _, ev := range all {
 				if s.Creator >= 0 && ev.Address.Equals(sdk.ValAddress(e.actors[s.Creator])) {
@@ -1228,7 +1243,110 @@ func (e *env) authzKeeper() authzkeeper.Keeper {
 	treasurytypes.RegisterMsgServer(router, e.treasury)
 	vtypes.RegisterMsgServer(router, e.valset)
 	evmtypes.RegisterMsgServer(router, e.evm)
-	return authzkeeper.NewKeeper(runtime.NewKVStoreService(storetypes.NewKVStoreKey("authz")), shapeCdc, router, e.in.AccountKeeper)
+	ak := authzkeeper.NewKeeper(runtime.NewKVStoreService(storetypes.NewKVStoreKey("authz")), shapeCdc, router, e.in.AccountKeeper)
+	authz.RegisterMsgServer(router, ak) // a MsgExec nested in a MsgExec is routed back to x/authz (no depth limit there)
+	return ak
+}
+
+// runNest: ONE message wrapped in s.Depth levels of authz.MsgExec whose grantee is the message's
+// signer at every level (x/authz then needs no grant at any level), as the single top-level message
+// of a transaction: ValidateBasic of every level, the real decorator, the real authz keeper.
+func runNest(t *testing.T, run *emit.Run, s scen, fromCorpus bool) {
+	e := setup(t)
+	in := s.Tx[0]
+	for _, g := range s.Grants {
+		if err := e.grant(g[0], g[1]); err != nil {
+			t.Fatal(err)
+		}
+	}
+	in.Grants = s.Grants
+	b, err := e.build(t, in)
+	if err != nil {
+		t.Fatalf("scenario %+v cannot be built: %v", s, err)
+	}
+	if len(in.Signers) != 1 {
+		t.Fatalf("nested message needs exactly one signer")
+	}
+	ak := e.authzKeeper()
+	top := b.msg
+	var vbErr error
+	if vb, ok := top.(sdk.HasValidateBasic); ok {
+		vbErr = vb.ValidateBasic()
+	}
+	var exec *authz.MsgExec
+	for d := 0; d < s.Depth; d++ {
+		x := authz.NewMsgExec(e.actors[in.Signers[0]], []sdk.Msg{top})
+		exec, top = &x, &x
+		if vb, ok := top.(sdk.HasValidateBasic); ok && vbErr == nil {
+			vbErr = vb.ValidateBasic()
+		}
+	}
+	var o obs
+	o.Ante, o.Err = e.ante(top)
+	if vbErr != nil {
+		o.Ante, o.Err = false, "validate-basic: "+vbErr.Error() // the model has no ValidateBasic: count as refused
+	}
+	if o.Ante {
+		cctx, write := e.ctx.CacheContext()
+		before := e.scan(cctx)
+		var err error
+		func() {
+			defer func() {
+				if r := recover(); r != nil {
+					err = fmt.Errorf("panic: %v", r)
+				}
+			}()
+			if exec != nil {
+				_, err = ak.Exec(cctx, exec)
+			} else {
+				err = b.run(cctx)
+			}
+		}()
+		if err == nil {
+			write()
+			o.Ok = true
+			after := e.scan(e.ctx)
+			for i := 0; i < nActors; i++ {
+				if before[i] != after[i] {
+					o.Touched = append(o.Touched, i)
+				}
+			}
+		} else {
+			o.Err = "handler: " + err.Error()
+		}
+	}
+	// oracle: the same as for a top-level delivery, replayed as the nest
+	oracleR(run, in, b, o, s)
+	run.Case(strings.Replace(caseTerm(in, b, o), "C03.CDeliver ", fmt.Sprintf("C03.CNest %d ", s.Depth), 1), true, map[string]any{"scenario": s, "observed": o})
+	run.Count("nest-depth", fmt.Sprintf("%02d ante=%v ok=%v", s.Depth, o.Ante, o.Ok))
+	if fromCorpus {
+		run.Count("source", "corpus")
+	}
+}
+
+// genNest: depths 0..10 around the decorator's limit; the innermost message is forged (creator B,
+// signer A, no grant), legitimate (creator = signer) or granted.
+func genNest(r *rand.Rand) scen {
+	a := pick(r, idxPig0, idxUser0, r.Intn(nVals), r.Intn(nVals))
+	bb := r.Intn(nVals)
+	in := scen{Kind: txKinds[r.Intn(3)], Named: map[string]int{}, SigBy: -1, Signers: []int{a}}
+	s := scen{Kind: "nest", SigBy: -1, Depth: pick(r, 0, 1, 2, 5, 6, 6, 7, 7, 7, 8, 9, 10)}
+	switch r.Intn(5) {
+	case 0:
+		in.Creator = a
+	case 1:
+		in.Creator = bb
+		if bb != a {
+			s.Grants = [][2]int{{bb, a}}
+		}
+	default:
+		in.Creator = bb
+	}
+	if in.Kind == "treasury.MsgUpsertRelayerFee" {
+		in.Named["FeeSetting.ValAddress"] = in.Creator
+	}
+	s.Tx = []scen{in}
+	return s
 }
 
 // runTx: one multi-message transaction through ValidateBasic of every message, ONE pass of the
@@ -1598,6 +1716,10 @@ func TestCorr(t *testing.T) {
 				runHist(t, run, s, true)
 				continue
 			}
+			if s.Kind == "nest" {
+				runNest(t, run, s, true)
+				continue
+			}
 			runOne(t, run, s, true)
 		}
 	}
@@ -1664,7 +1786,14 @@ func TestCorr(t *testing.T) {
 			continue
 		}
 		if i%4 == 1 {
-			runHist(t, run, genHist(run.Rng, 1+(i/4)%2), false)
+			switch (i / 4) % 5 {
+			case 3:
+				runNest(t, run, genNest(run.Rng), false)
+			case 4:
+				runHist(t, run, genHandover(run.Rng), false)
+			default:
+				runHist(t, run, genHist(run.Rng, 1+(i/4)%2), false)
+			}
 			continue
 		}
 		kind := drivenKinds[run.Rng.Intn(len(drivenKinds))]
